@@ -1,11 +1,11 @@
 #!/bin/bash
 # Runs every quick check against scratch copies of /repo carrying behaviour-preserving variations (mutants/benign/*.patch):
 # tuned constants, other slot numbering / chunk divisor / poll period, another suffix for temporaries, coarser locking.
-# Every check must stay silent (rc=0).  usage: tools/benign.sh [checks...]
+# Every check must stay silent (rc=0).  usage: [PATCHES=glob] tools/benign.sh [checks...]
 here="$(cd "$(dirname "${BASH_SOURCE[0]}")/.." && pwd)"
 checks="${@:-C01 C02 C03 C04 C05 C06 C07 C08 C09 C10 C11 C12 C13 C14 C15 C16 C17 C18 C19 C20}"
 bad=0
-for p in "$here"/mutants/benign/*.patch; do
+for p in "$here"/mutants/benign/${PATCHES:-*}.patch; do
   tmp=$(mktemp -d /tmp/vfb-XXXXXX)
   rsync -a --exclude .git --exclude '*.so' /repo/ "$tmp/"
   (cd "$tmp" && patch -p1 -s --no-backup-if-mismatch < "$p") || { echo "PATCH FAILED $p"; rm -rf "$tmp"; continue; }
